@@ -216,77 +216,25 @@ def merge_distinct(paths, cap_total=4000000):
     return len(s)
 
 
-def run_check(prop, tier, seed):
-    t0 = time.time()
-    harness = PROP2HARNESS[prop]
-    cfg = HARNESSES[harness]
-    budget = dict(cfg[tier])
-    level = LEVELS.get(prop, cfg.get("level", {}).get(prop, "exploration"))
-    engines = ["rc", "rp"] + (["fz"] if tier == "thorough" and "fz" in cfg["engines"] and budget.get("fz_secs") else [])
-    engines += ["en"] if "en" in cfg["engines"] else []
-    targets = vharness.targets_for(harness, engines)
-    try:
-        vbuild.build_targets(list(targets.values()) + vharness.extra_targets(harness))
-    except BuildError as e:
-        print("BUILD-FAILED property=%s harness=%s\n%s" % (prop, harness, e))
-        return 2
-    scratch = mk_scratch()
-    try:
-        return _run_check(prop, tier, seed, t0, harness, cfg, budget, level, targets, scratch)
-    finally:
-        shutil.rmtree(scratch, ignore_errors=True)
-
-
-def _run_check(prop, tier, seed, t0, harness, cfg, budget, level, targets, scratch):
-    known, fixed = read_known()
-    known_here = [k for k in known if k["property"] == prop]
-    known_path = os.path.join(scratch, "known.txt")
-    with open(known_path, "w") as f:
-        for k in known:
-            f.write(k["signature"] + "\n")
-    rp = Replayer(harness, prop, scratch, known_path, targets["rp"].out)
-    candidates = []  # (origin, tape bytes, class, info)
-    engines_count = {}
-    notes = []
-
-    # ---- 1. replay tier -------------------------------------------------------------------
-    tapes = sorted(glob.glob(os.path.join(VERIF, "regress", harness, "*.tape")))
-    if os.environ.get("VERIF_NO_REPLAY"):  # sensitivity experiments only: how far does generation alone get?
-        tapes = []
-    replay_excluded = 0
-
-    def rp_one(p):
-        return p, rp.run_file(p)
-
-    with ThreadPoolExecutor(max_workers=NWORKERS) as ex:
-        for p, r in ex.map(rp_one, tapes):
-            if r["cls"] != "ok":
-                candidates.append(("replay:" + os.path.relpath(p, VERIF), open(p, "rb").read(), r["cls"], r))
-            elif r.get("excluded"):
-                replay_excluded += 1
-    engines_count["replay"] = len(tapes)
-
-    # ---- 2. rapidcheck workers -------------------------------------------------------------
+def run_rc_workers(prop, exe, scratch, known_path, seed, ncases, rc_size, cfg, tag, stuck_s):
+    """Starts NWORKERS rapidcheck processes of `exe` with focus `prop`; returns (stats, candidates).
+    Watchdog: a case is a deterministic, single-threaded program (threads are fibers, time is virtual), so a
+    worker whose current case does not change for stuck_s seconds -- thousands of times the cost of a case --
+    sits in a loop without any platform call inside the code under test.  It is killed and its case goes
+    through triage (three fresh replays must also fail to terminate)."""
     workers = []
-    ncases = int(budget["rc_cases"] * float(os.environ.get("VERIF_SCALE", "1")))
+    candidates = []
     for i in range(NWORKERS):
-        out = os.path.join(scratch, "w%d" % i)
+        out = os.path.join(scratch, "%sw%d" % (tag, i))
         os.makedirs(out, exist_ok=True)
         env = base_env(prop, scratch, out, known_path)
-        env["RC_PARAMS"] = "seed=%d max_success=%d max_size=%d" % (seed * 64 + i + 1, ncases, budget["rc_size"])
-        if budget.get("time_cap"):
-            env["VH_TIME_CAP"] = str(budget["time_cap"])
+        env["RC_PARAMS"] = "seed=%d max_success=%d max_size=%d" % (seed * 64 + i + 1, ncases, rc_size)
         for k, v in cfg.get("env", {}).items():
             env[k] = v
         logf = open(os.path.join(out, "log"), "wb")
-        p = subprocess.Popen([targets["rc"].out], env=env, stdout=logf, stderr=subprocess.STDOUT, cwd=out, preexec_fn=_die_with_parent)
+        p = subprocess.Popen([exe], env=env, stdout=logf, stderr=subprocess.STDOUT, cwd=out, preexec_fn=_die_with_parent)
         workers.append((i, out, p, logf))
     stats_all = []
-    # Watchdog: a case is a deterministic, single-threaded program (threads are fibers, time is virtual),
-    # so a worker whose current case does not change for STUCK_S seconds -- thousands of times the cost
-    # of a case -- sits in a loop without any platform call inside the code under test.  It is killed and
-    # its case goes through triage (three fresh replays must also fail to terminate).
-    stuck_s = float(os.environ.get("VERIF_STUCK_S", cfg.get("stuck_s", 90)))
     last = {}
     stuck = set()
     while True:
@@ -319,16 +267,98 @@ def _run_check(prop, tier, seed, t0, harness, cfg, budget, level, targets, scrat
             continue
         if rc == 1 and st and st.get("failed") and os.path.exists(os.path.join(out, "fail.tape")):
             data = open(os.path.join(out, "fail.tape"), "rb").read()
-            candidates.append(("rapidcheck:w%d" % i, data, "verdict:" + st["fail"]["sig"], st["fail"]))
+            candidates.append(("rapidcheck%s:w%d" % (tag and "[" + tag.rstrip("_") + "]", i), data, "verdict:" + st["fail"]["sig"], st["fail"]))
             continue
         # abnormal end: sanitizer abort / signal.  The input is in cur.tape.
         log = open(os.path.join(out, "log"), "rb").read().decode("utf-8", "replace")
-        cur = os.path.join(out, "cur.tape")
-        data = read_cur_tape(cur)
+        data = read_cur_tape(os.path.join(out, "cur.tape"))
         if i in stuck:
-            candidates.append(("rapidcheck-stuck:w%d" % i, data, "hang:no-progress", {"log": log[-3000:], "rc": rc}))
+            candidates.append(("rapidcheck-stuck%s:w%d" % (tag and "[" + tag.rstrip("_") + "]", i), data, "hang:no-progress", {"log": log[-3000:], "rc": rc}))
             continue
-        candidates.append(("rapidcheck-crash:w%d" % i, data, "crash:" + crash_summary(log), {"log": log[-3000:], "rc": rc}))
+        candidates.append(("rapidcheck-crash%s:w%d" % (tag and "[" + tag.rstrip("_") + "]", i), data, "crash:" + crash_summary(log), {"log": log[-3000:], "rc": rc}))
+    return stats_all, candidates
+
+
+def run_check(prop, tier, seed):
+    t0 = time.time()
+    harness = PROP2HARNESS[prop]
+    cfg = HARNESSES[harness]
+    budget = dict(cfg[tier])
+    level = LEVELS.get(prop, cfg.get("level", {}).get(prop, "exploration"))
+    engines = ["rc", "rp"] + (["fz"] if tier == "thorough" and "fz" in cfg["engines"] and budget.get("fz_secs") else [])
+    engines += ["en"] if "en" in cfg["engines"] else []
+    targets = vharness.targets_for(harness, engines)
+    try:
+        vbuild.build_targets(list(targets.values()) + vharness.extra_targets(harness))
+    except BuildError as e:
+        print("BUILD-FAILED property=%s harness=%s\n%s" % (prop, harness, e))
+        return 2
+    also = cfg.get("also", {}).get(prop)
+    also_targets = None
+    if also:
+        also_targets = vharness.targets_for(also["harness"], ["rc", "rp"])
+        try:
+            vbuild.build_targets(list(also_targets.values()) + vharness.extra_targets(also["harness"]))
+        except BuildError as e:
+            print("BUILD-FAILED property=%s harness=%s\n%s" % (prop, also["harness"], e))
+            return 2
+    scratch = mk_scratch()
+    try:
+        return _run_check(prop, tier, seed, t0, harness, cfg, budget, level, targets, scratch, also, also_targets)
+    finally:
+        shutil.rmtree(scratch, ignore_errors=True)
+
+
+def _run_check(prop, tier, seed, t0, harness, cfg, budget, level, targets, scratch, also=None, also_targets=None):
+    known, fixed = read_known()
+    known_here = [k for k in known if k["property"] == prop]
+    known_path = os.path.join(scratch, "known.txt")
+    with open(known_path, "w") as f:
+        for k in known:
+            f.write(k["signature"] + "\n")
+    rp = Replayer(harness, prop, scratch, known_path, targets["rp"].out)
+    candidates = []  # (origin, tape bytes, class, info)
+    engines_count = {}
+    notes = []
+
+    # ---- 1. replay tier -------------------------------------------------------------------
+    tapes = sorted(glob.glob(os.path.join(VERIF, "regress", harness, "*.tape")))
+    if os.environ.get("VERIF_NO_REPLAY"):  # sensitivity experiments only: how far does generation alone get?
+        tapes = []
+    replay_excluded = 0
+
+    def rp_one(p):
+        return p, rp.run_file(p)
+
+    with ThreadPoolExecutor(max_workers=NWORKERS) as ex:
+        for p, r in ex.map(rp_one, tapes):
+            if r["cls"] != "ok":
+                candidates.append(("replay:" + os.path.relpath(p, VERIF), open(p, "rb").read(), r["cls"], r))
+            elif r.get("excluded"):
+                replay_excluded += 1
+    engines_count["replay"] = len(tapes)
+
+    # ---- 2. rapidcheck workers -------------------------------------------------------------
+    ncases = int(budget["rc_cases"] * float(os.environ.get("VERIF_SCALE", "1")))
+    stuck_s = float(os.environ.get("VERIF_STUCK_S", cfg.get("stuck_s", 90)))
+    stats_all, cands = run_rc_workers(prop, targets["rc"].out, scratch, known_path, seed, ncases, budget["rc_size"], cfg, "", stuck_s)
+    candidates.extend(cands)
+
+    # ---- 2b. the property's integration part in a second harness (cfg["also"]) ---------------
+    rp_also = None
+    if also:
+        acfg = HARNESSES[also["harness"]]
+        rp_also = Replayer(also["harness"], prop, scratch, known_path, also_targets["rp"].out)
+        atapes = [] if os.environ.get("VERIF_NO_REPLAY") else sorted(glob.glob(os.path.join(VERIF, "regress", also["harness"], "*.tape")))
+        with ThreadPoolExecutor(max_workers=NWORKERS) as ex:
+            for pth, r in ex.map(lambda q: (q, rp_also.run_file(q)), atapes):
+                if r["cls"] != "ok":
+                    candidates.append(("replay[%s]:" % also["harness"] + os.path.relpath(pth, VERIF), open(pth, "rb").read(), r["cls"], r, rp_also))
+        engines_count["replay"] = engines_count.get("replay", 0) + len(atapes)
+        an = int(also[tier]["rc_cases"] * float(os.environ.get("VERIF_SCALE", "1")))
+        st2, c2 = run_rc_workers(prop, also_targets["rc"].out, scratch, known_path, seed, an, also[tier]["rc_size"], acfg, also["harness"] + "_", stuck_s)
+        stats_all.extend(st2)
+        candidates.extend([c + (rp_also,) for c in c2])
 
     # ---- 3. thorough extras ------------------------------------------------------------------
     if "fz" in targets:
@@ -348,7 +378,10 @@ def _run_check(prop, tier, seed, t0, harness, cfg, budget, level, targets, scrat
     # ---- 4. triage ---------------------------------------------------------------------------
     violations = []
     seen_cls = set()
-    for origin, data, cls, info in candidates:
+    for cand in candidates:
+        origin, data, cls, info = cand[:4]
+        rp_c = cand[4] if len(cand) > 4 else rp
+        suffix = (".%s.tape" % rp_c.harness) if rp_c is not rp else ".tape"
         key = cls
         if key in seen_cls:
             continue
@@ -356,7 +389,7 @@ def _run_check(prop, tier, seed, t0, harness, cfg, budget, level, targets, scrat
         # confirm: 3 replays in fresh processes must all fail in the same way
         rto = stuck_s if cls.startswith("hang:") else 120
         with ThreadPoolExecutor(max_workers=3) as ex3:
-            results = list(ex3.map(lambda _: rp.run_bytes(data, timeout=rto), range(3)))
+            results = list(ex3.map(lambda _: rp_c.run_bytes(data, timeout=rto), range(3)))
         kinds = set(r["cls"].split(":")[0] for r in results)
         if any(r["cls"] == "ok" for r in results) or len(kinds) != 1:
             notes.append("non-reproducible failure from %s (%s): replays gave %s" % (origin, cls, [r["cls"] for r in results]))
@@ -368,7 +401,7 @@ def _run_check(prop, tier, seed, t0, harness, cfg, budget, level, targets, scrat
             h = hashlib.sha1(data).hexdigest()[:12]
             fdir = os.path.join(VERIF, "findings", prop)
             os.makedirs(fdir, exist_ok=True)
-            tp = os.path.join(fdir, h + ".tape")
+            tp = os.path.join(fdir, h + suffix)
             open(tp, "wb").write(data)
             msg = "the case does not terminate: three fresh replays ran %.0f s each (a case normally takes milliseconds) without the code under test reaching a platform call" % rto
             open(os.path.join(fdir, h + ".txt"), "w").write("origin: %s\nclass: hang:no-progress\n\n%s\n" % (origin, msg))
@@ -380,14 +413,14 @@ def _run_check(prop, tier, seed, t0, harness, cfg, budget, level, targets, scrat
             want = final_cls
 
             def test(b):
-                return rp.run_bytes(b)["cls"] == want
+                return rp_c.run_bytes(b)["cls"] == want
 
             data = ddmin(data, test)
-        r = rp.run_bytes(data, trace=True)
+        r = rp_c.run_bytes(data, trace=True)
         h = hashlib.sha1(data).hexdigest()[:12]
         fdir = os.path.join(VERIF, "findings", prop)
         os.makedirs(fdir, exist_ok=True)
-        tp = os.path.join(fdir, h + ".tape")
+        tp = os.path.join(fdir, h + suffix)
         open(tp, "wb").write(data)
         open(os.path.join(fdir, h + ".txt"), "w").write("origin: %s\nclass: %s\n\n%s" % (origin, final_cls, r["out"]))
         violations.append({"replay": tp, "class": final_cls, "origin": origin, "msg": r.get("msg", ""), "trace": r["out"][-2500:]})
@@ -523,6 +556,10 @@ def cmd_replay(argv):
         prop, harness = harness, PROP2HARNESS[harness]
     else:
         prop = ""
+    # findings of a property's integration part carry the harness in their name: <hash>.<harness>.tape
+    m = re.search(r"\.([a-z]+)\.tape$", argv[1]) if len(argv) > 1 else None
+    if m and m.group(1) in HARNESSES:
+        harness = m.group(1)
     targets = vharness.targets_for(harness, ["rp"])
     try:
         vbuild.build_targets(list(targets.values()) + vharness.extra_targets(harness))
